@@ -17,7 +17,7 @@ def main():
     rows = []
     sd = os.path.join(VERIF, "seeded")
     for p in sorted(os.listdir(sd)):
-        for k in sorted(os.listdir(os.path.join(sd, p))):
+        for k in sorted(os.listdir(os.path.join(sd, p)), key=lambda x: int(x) if x.isdigit() else 0):
             d = os.path.join(sd, p, k)
             mp, rp = os.path.join(d, "meta.json"), os.path.join(d, "result.json")
             if not os.path.exists(mp):
